@@ -12,9 +12,11 @@ record("Project", fields={"ropefolder": "Opt[Folder]"})
 record("FileObj", fields={})
 record("_DataFiles", fields={"project": "Project"}, pyclass="rope.base.project:_DataFiles")
 
-contract("File.exists", abstract=True, pure=True, params={"self": "File"}, returns="Bool")
-contract("_DataFiles._get_file", abstract=True, params={"self": "_DataFiles", "name": "Str"}, returns="File")
-contract("open", external=True, params={"path": "Str", "mode": "Str"}, returns="FileObj", modifies=["cursor"], ensures=["cursor == 0"],
+specfun("on_disk", ["File"], "Bool", note="the data file exists")
+specfun("file_of", ["_DataFiles", "Str"], "File", note="the resource .ropeproject/<name>")
+contract("File.exists", abstract=True, pure=True, params={"self": "File"}, returns="Bool", ensures=["result == on_disk(self)"])
+contract("_DataFiles._get_file", abstract=True, pure=True, params={"self": "_DataFiles", "name": "Str"}, returns="File", ensures=["result == file_of(self, name)"])
+contract("open", external=True, params={"path": "Str", "mode": "Str"}, returns="FileObj", requires=["mode == 'rb'"], modifies=["cursor"], ensures=["cursor == 0"],
          note="open(path,'rb') on an existing readable file yields a stream positioned at 0 (I/O errors are outside the property: the crash model only truncates)")
 contract("pickle.load", external=True, params={"f": "FileObj"}, returns="Opaque[Data]", modifies=["cursor"],
          ensures=["old(cursor) < len(records)", "result == records[old(cursor)]", "cursor == old(cursor) + 1"],
@@ -25,9 +27,14 @@ contract("pickle.load", external=True, params={"f": "FileObj"}, returns="Opaque[
 
 contract("_DataFiles.read_data", source=M + "_DataFiles.read_data", params={"self": "_DataFiles", "name": "Str"}, returns="Opt[Opaque[Data]]",
          requires=["0 <= cursor", "len(records) <= 1"], modifies=["cursor"],
-         ensures=["implies(not is_none(result), len(records) == 1 and val(result) == records[0])"],
+         ensures=["implies(not is_none(result), len(records) == 1 and val(result) == records[0])",
+                  # and the saved value IS returned whenever the file is there and holds exactly one complete record and nothing else
+                  # (a truncated tail cut at an opcode boundary reads as a clean end, so `garbage` alone does not force None)
+                  "implies(not is_none(self.project.ropefolder) and on_disk(file_of(self, name)) and len(records) == 1 and not garbage, not is_none(result))",
+                  "implies(not is_none(result), not is_none(self.project.ropefolder) and on_disk(file_of(self, name)))"],
          raises={},
-         loops={1: {"inv": ["0 <= cursor and cursor <= len(records)", "len(result) == cursor",
+         loops={1: {"decreases": "len(records) - cursor",
+                    "inv": ["0 <= cursor and cursor <= len(records)", "len(result) == cursor",
                             "forall(lambda k: implies(0 <= k and k < len(result), result[k] == records[k]))"]}},
          locals={"result": "Seq[Opaque[Data]]"},
          note="total: nothing escapes whatever the file holds; the answer is the complete saved value or None (= empty)")
